@@ -23,4 +23,4 @@ run_one() {
 }
 export -f run_one; export PROPS
 # optional arguments: names to run (default: all)
-( for d in seeded/*/; do echo "$(basename $d) $d/patch.diff"; done; for f in mutants/revert/*.diff; do echo "revert-$(basename $f | cut -c1-2) $f"; done ) | { if [ $# -gt 0 ]; then grep -E "^($(echo "$@" | tr ' ' '|')) "; else cat; fi; } | xargs -P 6 -L 1 bash -c 'run_one $0 $1'
+( for d in seeded/*/; do echo "$(basename $d) $d/patch.diff"; done; for f in mutants/revert/*.diff; do echo "revert-$(basename $f | cut -c1-2) $f"; done ) | { if [ $# -gt 0 ]; then grep -E "^($(echo "$@" | tr ' ' '|')) "; else cat; fi; } | xargs -P ${MATRIX_JOBS:-6} -L 1 bash -c 'run_one $0 $1'
